@@ -1,8 +1,8 @@
 """C04 - MPI entry points are correct for every rank count and memory layout."""
 import os, json, subprocess
 from lib import engine, native, demos
-from lib.core import tier, VERIF
-from units import k07_reducers, k04_update
+from lib.core import tier, VERIF, Undecided
+from units import k07_reducers, k04_update, k23_slices
 from . import common
 
 LEVEL = "other"
@@ -49,6 +49,17 @@ def run(rep):
     specs = [s for s in k07_reducers.units(tier()) if "mpi" in s["unit"] or "identity" in s["unit"]]
     specs += [s for s in k04_update.units(tier(), which=("K4", "K5")) if "mpi" in s.get("unit", "")]
     engine.run_units(rep, specs)
+    try:
+        gen_dir, gen_hash, gen_log, gen_stmts = k23_slices.generate()
+        sb = native.build("e3_slices", flags=("-I" + gen_dir, "-DVP_GEN_HASH=0x" + gen_hash), libs=())
+        rs = native.run_driver(sb, "e3_slices[extracted slice arithmetic]",
+                               functions={"slice computation x3 (K23), extracted": "bounded(total<=700/4096, P<=64)"},
+                               assumptions=["extraction keeps the four statements defining total/stride/istart/iend and the guarded loop header; " + "; ".join("%s: %s" % (k, " ".join(v)) for k, v in gen_stmts.items())[:900]],
+                               entry_points=["find_shortest_odd_cycle_mpi", "_mcb_sva_trees_mpi"])
+        common.filter_kinds(rs, KINDS)
+        rep.add_bounded(rs)
+    except Undecided as e:
+        rep.undecided.append("K23 slice extraction: %s" % e)
     b = native.build("e3_mpi", incfirst=(os.path.join(VERIF, "stubs/mpi_contract"), os.path.join(VERIF, "stubs/tbb_contract")),
                      libs=("-lboost_timer", "-lboost_serialization"))
     eps = ["mcb_sva_signed_mpi", "mcb_sva_fvs_trees_mpi", "mcb_sva_fvs_trees_tbb_mpi", "mcb_sva_iso_trees_mpi", "mcb_sva_iso_trees_tbb_mpi"]
